@@ -4,7 +4,8 @@
    [step false] = the code as found); proofs: Proofs/DeletionBase.v, DeletionInv.v, DeletionTheorems.v,
    DeletionSettings.v.  Histories are arbitrary operation lists ([run] = fold_left of [step] from the empty space);
    restarts, worker runs cancelled after any number of tree-manager calls, failing tree managers, late re-delivery
-   of any earlier head-storage notification and a deletion racing a remote fetch are operations of the alphabet.
+   of any earlier head-storage notification and a deletion racing a remote fetch / a put at any stage (recorded as
+   queued or as deleted) are operations of the alphabet.
 
    NOT proved (only evaluated on every observed case by Run/C15_run.v): the syntactic statement
      forall univ ops, spec_C15 univ ops (trace true univ ops init) = true
@@ -48,6 +49,61 @@ Theorem c15_fetch_race_never_stores : forall ops i p d h order,
   has_storage i s = false -> has_chg i (fst (step true s (OpFetchRace i p d h order))) = false.
 Proof. exact fetch_race_never_stores. Qed.
 Print Assumptions c15_fetch_race_never_stores.
+
+(* ---- the same at EVERY stage of the fetch before the creating transaction commits (0 after the local lookup,
+   1 before the request, 2 response in flight, 3 deferred storage handed out / changes being validated, 4 entry of the
+   first AddAll), however the deletion is recorded (del 1: settings change only = Queued; del 2: + a worker run =
+   Deleted for an absent tree): the fetch fails as already deleted and the resulting state is exactly the state the
+   recorded deletion alone produces - so it does not depend on the stage and nothing of the fetched tree is stored *)
+Theorem c15_fetch_staged_before_commit : forall s i p d h stage del order,
+  Inv s -> has_storage i s = false -> tomb i s = false -> del <> 0 -> stage <= 4 ->
+  step true s (OpFetchStaged i p d h stage del order) = (inject del i order s, OErrDeleted).
+Proof. exact fetch_staged_before_commit. Qed.
+Print Assumptions c15_fetch_staged_before_commit.
+
+Theorem c15_fetch_staged_never_stores : forall ops i p d h stage del order,
+  let s := run true ops init in
+  has_storage i s = false -> del <> 0 -> stage <= 4 ->
+  has_chg i (fst (step true s (OpFetchStaged i p d h stage del order))) = false
+  /\ snd (step true s (OpFetchStaged i p d h stage del order)) = OErrDeleted.
+Proof. exact fetch_staged_never_stores. Qed.
+Print Assumptions c15_fetch_staged_never_stores.
+
+(* stage 5, after the first AddAll returned: the ordinary fetch followed by an ordinary deletion of a stored tree
+   ([opened]: if the worker has already removed the tree again, opening it for the caller fails with an ordinary error) *)
+Theorem c15_fetch_staged_after_commit : forall s i p d h del order,
+  has_storage i s = false -> tomb i s = false ->
+  step true s (OpFetchStaged i p d h 5 del order)
+  = (let s' := inject del i order (fst (step true s (OpFetch i p d h true))) in
+     (s', opened i s' (snd (step true s (OpFetch i p d h true))))).
+Proof. exact fetch_staged_after_commit. Qed.
+Print Assumptions c15_fetch_staged_after_commit.
+
+(* PutSyncTree: deletion recorded before its tombstone check (0) or between the check and the creating transaction (1) *)
+Theorem c15_put_staged_before_commit : forall s i p d stage del order,
+  Inv s -> tomb i s = false -> del <> 0 -> stage <= 1 ->
+  step true s (OpPutStaged i p d stage del order) = (inject del i order s, OErrDeleted).
+Proof. exact put_staged_before_commit. Qed.
+Print Assumptions c15_put_staged_before_commit.
+
+Example c15_staged_nonvacuous :
+  (* every stage before the commit, queued or deleted: refused, nothing stored, the tombstone is there *)
+  forallb (fun sd => let '(st, o) := step true init (OpFetchStaged 1 0 false 1001 (fst sd) (snd sd) [1]) in
+                     out_eqb o OErrDeleted && negb (has_chg 1 st) && (status 1 st =? snd sd))
+          [(0,1); (1,1); (2,1); (3,1); (4,1); (0,2); (1,2); (2,2); (3,2); (4,2)] = true /\
+  (* after the commit: stored, then queued (still stored) resp. deleted by the worker (nothing stored) *)
+  (let '(st, o) := step true init (OpFetchStaged 1 0 false 1001 5 1 [1]) in
+   out_eqb o OOk && has_chg 1 st && (status 1 st =? 1)) = true /\
+  (let '(st, o) := step true init (OpFetchStaged 1 0 false 1001 5 2 [1]) in
+   out_eqb o OErrOther && negb (has_chg 1 st) && (status 1 st =? 2)) = true /\
+  (* the code with the tombstone check at the construction of the deferred storage only would store it: the
+     unrepaired model (no check in the creating transaction at all) shows the shape of that failure at stage 3 *)
+  (let '(st, o) := step false init (OpFetchStaged 1 0 false 1001 3 1 [1]) in
+   out_eqb o OOk && has_chg 1 st && (status 1 st =? 1)) = true /\
+  forallb (fun sd => let '(st, o) := step true init (OpPutStaged 1 0 false (fst sd) (snd sd) [1]) in
+                     out_eqb o OErrDeleted && negb (has_chg 1 st) && (status 1 st =? snd sd))
+          [(0,1); (1,1); (0,2); (1,2)] = true.
+Proof. vm_compute. repeat split; reflexivity. Qed.
 
 (* once tombstoned and no longer stored, no later operation stores changes of that id again *)
 Theorem c15_no_resurrection : forall ops1 ops2 i,
